@@ -22,23 +22,25 @@ theorem rtE_funcs (V : Nat → ValueS) (x : Ext) (td : TData) (ver : Option Int)
         ConstOK2 V td s' (A ++ B) (fs.flatMap fun f => allInitsG f.2) ∧
         ExtFresh s' x' ∧ XKeep s.nv xs x' ∧
         MetaOKk x x' (A ++ B) (fs.flatMap fun f => emitF V f.2) ∧
-        QuantOKk x x' (A ++ B) (fs.flatMap fun f => emitQF V f.2)
+        QuantOKk x x' (A ++ B) (fs.flatMap fun f => emitQF V f.2) ∧
+        s.nn ≤ s'.nn ∧ (∀ k, k < s.nn → x'.devs k = xs.devs k) ∧ DevTrFs V x' s'.nn (A ++ B) fs fps gs
   | [], s, xs, A, d0, fps, ws, hser, _, _, _, _, _, _, hrs, hfr, hxf => by
     simp only [serFuncsE, Except.ok.injEq, Prod.mk.injEq] at hser
     obtain ⟨rfl, _⟩ := hser
     exact ⟨s, xs, [], [], by simp [deserFuncsE], by simpa using hrs, Nat.le_refl _, by simp, by simp [TreeRelFs], hfr,
-      Prim.refl _ _, by simp [InfoOK2], by simp [ConstOK2], hxf, XKeep.refl _ _, by simp [MetaOKk], by simp [QuantOKk]⟩
+      Prim.refl _ _, by simp [InfoOK2], by simp [ConstOK2], hxf, XKeep.refl _ _, by simp [MetaOKk], by simp [QuantOKk],
+      Nat.le_refl _, fun _ _ => rfl, by simp only [DevTrFs]⟩
   | f :: fs, s, xs, A, d0, fps, ws, hser, hok, hxok, hnd, hnew, hids, hd0, hrs, hfr, hxf => by
     obtain ⟨fp, ws1, fps', ws2, h1, h2, rfl, rfl⟩ := serFuncsE_inv hser
     obtain ⟨id, g⟩ := f
     simp only [List.flatMap_cons] at hnd hnew ⊢
     rw [List.nodup_append] at hnd
     simp only [List.map_cons, List.nodup_cons] at hids
-    obtain ⟨s1, x1, g', B1, e1, eid, r1, l1, k1, t1, f1, p1, io1, co1, xf1, xk1, _, mo1, qo1⟩ :=
+    obtain ⟨s1, x1, g', B1, e1, eid, r1, l1, k1, t1, f1, p1, io1, co1, xf1, xk1, _, mo1, qo1, nn1, fr1, dt1⟩ :=
       rtE_func V x td ver hwf id g s xs A fp ws1 h1 (hok (id, g) (by simp)) hnd.1 (hxok (id, g) (by simp))
         (fun v hv => hnew v (by simp [hv])) hrs hfr hxf
     have hidd : id ∉ d0.map (·.1) := hd0 (id, g) (by simp)
-    obtain ⟨s2, x2, gs, B2, e2, r2, l2, k2, t2, f2, p2, io2, co2, xf2, xk2, mo2, qo2⟩ :=
+    obtain ⟨s2, x2, gs, B2, e2, r2, l2, k2, t2, f2, p2, io2, co2, xf2, xk2, mo2, qo2, nn2, fr2, dt2⟩ :=
       rtE_funcs V x td ver hwf fs s1 x1 (A ++ B1) (d0 ++ [(id, g')]) fps' ws2 h2
         (fun f hf => hok f (by simp [hf])) (fun f hf => hxok f (by simp [hf])) hnd.2.1
         (fun v hv hm => by
@@ -54,7 +56,8 @@ theorem rtE_funcs (V : Nat → ValueS) (x : Ext) (td : TData) (ver : Option Int)
           · exact hids.1 (hm ▸ List.mem_map_of_mem hf))
         r1 f1 xf1
     refine ⟨s2, x2, (id, g') :: gs, B1 ++ B2, ?_, by simpa [List.append_assoc] using r2, Nat.le_trans l1 l2, ?_, ?_, f2,
-      p1.trans (p2.weaken l1), ?_, ?_, xf2, xk1.trans (xk2.weaken l1), ?_, ?_⟩
+      p1.trans (p2.weaken l1), ?_, ?_, xf2, xk1.trans (xk2.weaken l1), ?_, ?_, Nat.le_trans nn1 nn2,
+      fun k hk => by rw [fr2 k (Nat.lt_of_lt_of_le hk nn1), fr1 k hk], ?_⟩
     · simp only [deserFuncsE, e1, eid]
       rw [fdictInsert_fresh d0 id g' hidd, e2]
       simp [List.append_assoc]
@@ -90,6 +93,9 @@ theorem rtE_funcs (V : Nat → ValueS) (x : Ext) (td : TData) (ver : Option Int)
       rcases hv with hv | hv
       · exact qo1' v hv
       · exact qo2 v hv
+    · simp only [DevTrFs]
+      rw [← List.append_assoc]
+      exact ⟨DevTrF.mono B2 nn2 fr2 g fp g' dt1, dt2⟩
 
 theorem serializeME_inv {ver : Option Int} {w w1 : MWorldE} {Q : ModelE} (h : serializeME ver w = .ok (w1, Q)) :
     ∃ p ws1 fps ws2, serGraphE w.st.vals w.ext w.st.tdata ver w.root = .ok (p, ws1) ∧
@@ -132,7 +138,7 @@ theorem reloadableME_roundtrip (ver : Option Int) (w : MWorldE) (h : ReloadableM
       | exact htail
       | exact htail.1
   simp only [List.map_nil, List.nil_append] at hd hrs ht hio hco hm hq
-  obtain ⟨s2, x2, gs, B2, e2, r2, _, k2, t2, f2, p2, io2, co2, xf2, xk2, mo2, qo2⟩ :=
+  obtain ⟨s2, x2, gs, B2, e2, r2, _, k2, t2, f2, p2, io2, co2, xf2, xk2, mo2, qo2, _⟩ :=
     rtE_funcs w.st.vals w.ext w.st.tdata ver hwf w.funcs s1 x1 B1 [] fps ws2 hf hfok hextF hnd.2.1
       (fun v hv hm => by rw [hk] at hm; exact hnd.2.2 v hm v hv rfl)
       hids (fun _ _ hm => by simp at hm) hrs f1 xf1
